@@ -12,7 +12,7 @@ SPLIT = {"nested_par": [("_ok", "not fail"), ("_fail", "fail")], "par_branch_ret
                        for t, c in (("_ok", "not fa and not fb"), ("_a", "fa and not fb"), ("_b", "fb and not fa"))
                        if not (s != 0 and t == "_b")],
          "map_items": [("_ok", "failing == -1"), ("_fail", "failing >= 0 and n >= 1")]}
-scn.register(globals(), {"C03"}, ["seq_chain", "seq_misc", "two_execs", "par2", "par_pass_task", "par_catch", "par_retry", "map_items", "par_wait_fail", "par_branch_retry", "par_inner_catch", "nested_par", "poison_midrun"], SPLIT)
+scn.register(globals(), {"C03"}, ["seq_chain", "seq_misc", "exec_timeout", "two_execs", "par2", "par_pass_task", "par_catch", "par_retry", "map_items", "par_wait_fail", "par_branch_retry", "par_inner_catch", "nested_par", "poison_midrun"], SPLIT)
 
 import s2_more as more
 more.register(globals(), {"C03"}, ["par3_mixed", "map_iter_catch", "map_fail_batches", "map_in_par", "par_in_map", "branch_fail_state", "par_longform", "nested_inner_catch", "fan_retry_inner_retry", "three_execs"],
